@@ -15,36 +15,46 @@
 (* after the provider call, i.e. the cache entry is written outside the    *)
 (* critical section - the second plausible regression of this code, also   *)
 (* refuted by TLC and also turned into an attack schedule.                 *)
+(* FetchFail is the provider raising (network error while fetching the     *)
+(* token): the `with` statement releases the lock, nothing is cached, the  *)
+(* caller gets the exception and the next call fetches again.  With        *)
+(* ReleaseOnError = FALSE the lock is leaked on that path (acquire/release *)
+(* written by hand without try/finally) - the third refuted design: TLC    *)
+(* finds the state in which every thread is idle and the lock is held, and *)
+(* the forced replay of that behaviour hangs defective code.               *)
 (***************************************************************************)
 EXTENDS Naturals, Sequences, FiniteSets, TLC
-CONSTANTS Threads, Keys, R, MaxTime, MaxCalls, Recheck, WriteInLock
+CONSTANTS Threads, Keys, R, MaxTime, MaxCalls, Recheck, WriteInLock, MaxFails, ReleaseOnError
 None == [data |-> 0, expires |-> 0, set |-> FALSE]
-VARIABLES cache, lock, pc, key, now, fetches, calls, returned
-vars == <<cache, lock, pc, key, now, fetches, calls, returned>>
+VARIABLES cache, lock, pc, key, now, fetches, calls, returned, fails
+vars == <<cache, lock, pc, key, now, fetches, calls, returned, fails>>
 Valid(e) == e.set /\ now < e.expires
 Init == /\ cache = [k \in Keys |-> None] /\ lock = 0 /\ pc = [t \in Threads |-> "idle"] /\ key = [t \in Threads |-> 0]
-        /\ now = 0 /\ fetches = <<>> /\ calls = 0 /\ returned = <<>>
+        /\ now = 0 /\ fetches = <<>> /\ calls = 0 /\ returned = <<>> /\ fails = 0
 Ret(t, d) == returned' = Append(returned, [t |-> t, k |-> key[t], data |-> d, at |-> now])
 Call(t, k) == /\ pc[t] = "idle" /\ calls < MaxCalls /\ key' = [key EXCEPT ![t] = k] /\ pc' = [pc EXCEPT ![t] = "read"]
-              /\ calls' = calls + 1 /\ UNCHANGED <<cache, lock, now, fetches, returned>>
+              /\ calls' = calls + 1 /\ UNCHANGED <<cache, lock, now, fetches, returned, fails>>
 Read(t) == /\ pc[t] = "read"
            /\ IF Valid(cache[key[t]]) THEN pc' = [pc EXCEPT ![t] = "idle"] /\ Ret(t, cache[key[t]].data)
               ELSE pc' = [pc EXCEPT ![t] = "acquire"] /\ UNCHANGED returned
-           /\ UNCHANGED <<cache, lock, key, now, fetches, calls>>
+           /\ UNCHANGED <<cache, lock, key, now, fetches, calls, fails>>
 Acquire(t) == /\ pc[t] = "acquire" /\ lock = 0 /\ lock' = t /\ pc' = [pc EXCEPT ![t] = IF Recheck THEN "reread" ELSE "fetch"]
-              /\ UNCHANGED <<cache, key, now, fetches, calls, returned>>
+              /\ UNCHANGED <<cache, key, now, fetches, calls, returned, fails>>
 ReRead(t) == /\ pc[t] = "reread"
              /\ IF Valid(cache[key[t]]) THEN pc' = [pc EXCEPT ![t] = "idle"] /\ lock' = 0 /\ Ret(t, cache[key[t]].data)
-                ELSE pc' = [pc EXCEPT ![t] = "fetch"] /\ UNCHANGED <<lock, returned>>
-             /\ UNCHANGED <<cache, key, now, fetches, calls>>
+                ELSE pc' = [pc EXCEPT ![t] = "fetch"] /\ UNCHANGED <<lock, returned, fails>>
+             /\ UNCHANGED <<cache, key, now, fetches, calls, fails>>
 Fetch(t) == /\ pc[t] = "fetch" /\ fetches' = Append(fetches, [k |-> key[t], at |-> now]) /\ pc' = [pc EXCEPT ![t] = "write"]
             /\ lock' = IF WriteInLock THEN lock ELSE 0
-            /\ UNCHANGED <<cache, key, now, calls, returned>>
+            /\ UNCHANGED <<cache, key, now, calls, returned, fails>>
 Write(t) == /\ pc[t] = "write" /\ cache' = [cache EXCEPT ![key[t]] = [data |-> Len(fetches), expires |-> now + R, set |-> TRUE]]
             /\ lock' = (IF WriteInLock THEN 0 ELSE lock) /\ pc' = [pc EXCEPT ![t] = "idle"] /\ Ret(t, Len(fetches))
-            /\ UNCHANGED <<key, now, fetches, calls>>
-Tick == /\ now < MaxTime /\ now' = now + 1 /\ UNCHANGED <<cache, lock, pc, key, fetches, calls, returned>>
-Next == Tick \/ \E t \in Threads : Read(t) \/ Acquire(t) \/ ReRead(t) \/ Fetch(t) \/ Write(t) \/ \E k \in Keys : Call(t, k)
+            /\ UNCHANGED <<key, now, fetches, calls, fails>>
+FetchFail(t) == /\ pc[t] = "fetch" /\ fails < MaxFails /\ fails' = fails + 1 /\ pc' = [pc EXCEPT ![t] = "idle"]
+                /\ lock' = IF ReleaseOnError /\ lock = t THEN 0 ELSE lock
+                /\ UNCHANGED <<cache, key, now, fetches, calls, returned>>
+Tick == /\ now < MaxTime /\ now' = now + 1 /\ UNCHANGED <<cache, lock, pc, key, fetches, calls, returned, fails>>
+Next == Tick \/ \E t \in Threads : Read(t) \/ Acquire(t) \/ ReRead(t) \/ Fetch(t) \/ FetchFail(t) \/ Write(t) \/ \E k \in Keys : Call(t, k)
 Spec == Init /\ [][Next]_vars
 (* two fetches of the same key are at least one refresh interval apart *)
 FetchOnceOf(f) == \A i, j \in 1..Len(f) : (i < j /\ f[i].k = f[j].k) => f[j].at >= f[i].at + R
@@ -53,5 +63,9 @@ FetchOnce == FetchOnceOf(fetches)
 LatestFetch(f, k) == IF \E i \in 1..Len(f) : f[i].k = k THEN CHOOSE i \in 1..Len(f) : f[i].k = k /\ \A j \in 1..Len(f) : f[j].k = k => j <= i ELSE 0
 ReturnsFresh == \A i \in 1..Len(returned) : returned[i].data # 0 /\ fetches[returned[i].data].k = returned[i].k
 MutualExclusion == WriteInLock => Cardinality({t \in Threads : pc[t] \in {"reread", "fetch", "write"}}) <= 1
-LockOwner == lock # 0 => pc[lock] \in {"reread", "fetch", "write"}
+LockOwner == lock # 0 => (pc[lock] \in {"reread", "fetch", "write"} \/ ~ReleaseOnError)
+(* the lock does not outlive the calls: a failed fetch must not leave it held *)
+NoLeak == (\A t \in Threads : pc[t] = "idle") => lock = 0
+(* a failed fetch caches nothing: every cached token is the result of a logged successful fetch of that key *)
+CacheFromFetch == \A k \in Keys : cache[k].set => (cache[k].data \in 1..Len(fetches) /\ fetches[cache[k].data].k = k)
 =============================================================================
